@@ -170,6 +170,40 @@ func c19Body(p c19Params) func() explore.SchedOutcome {
 				}
 				obs = append(obs, "final="+describe(final, cands))
 			}
+		case "post-fault":
+			// a post whose disk write fails (the temporary file cannot be created) must not wedge the board:
+			// later readers, posters and logins are still served
+			a, b := connect(1), connect(2)
+			tmp := filepath.Join(wd.ConfigDir, "MessageBoard.txt.tmp")
+			_ = os.MkdirAll(filepath.Join(tmp, "blocker"), 0755)
+			vrt.EndSetup()
+			a.Req(ref.TOldPostNews, ref.FS(ref.FData, "lost post"))
+			vrt.Settle(5 * time.Second)
+			_ = os.RemoveAll(tmp)
+			id := b.Req(ref.TGetMsgs)
+			vrt.Settle(5 * time.Second)
+			if r := b.Reply(id); r == nil || r.Err != 0 {
+				fail("board-wedged-after-failed-post", fmt.Sprintf("get-messages after a post whose disk write failed: %v; blocked: %v", r, vrt.Blocked()))
+			}
+			id2 := b.Req(ref.TOldPostNews, ref.FS(ref.FData, "next post"))
+			vrt.Settle(5 * time.Second)
+			if r := b.Reply(id2); r == nil || r.Err != 0 {
+				fail("board-wedged-after-failed-post", fmt.Sprintf("a later post: %v", r))
+			}
+			l := wd.Dial("10.0.0.7:1007")
+			l.Handshake()
+			l.Login123("u", "pw", "l1", 1)
+			vrt.Settle(5 * time.Second)
+			l.Poll()
+			shown := false
+			for _, t := range l.Inbox {
+				if t.Type == ref.TShowAgreement {
+					shown = true
+				}
+			}
+			if !shown {
+				fail("agreement-not-shown-after-failed-post", fmt.Sprintf("blocked: %v", vrt.Blocked()))
+			}
 		case "logins", "reader+login":
 			var rdr *world.Client
 			var rid uint32
@@ -246,6 +280,10 @@ func runC19(w *explore.Worker) {
 	var jobs []job
 	for _, sz := range []int{0, 1, 511, 512, 513, 2000, 40000, 65000} {
 		jobs = append(jobs, job{c19Params{"sweep", sz}, 0})
+	}
+	jobs = append(jobs, job{c19Params{"post-fault", 100}, 0})
+	if !w.Thorough {
+		jobs = append(jobs, job{c19Params{"readers+poster", 40000}, 1}, job{c19Params{"logins", 40000}, 1})
 	}
 	sizes := []int{1, 513, 2000}
 	if w.Thorough {
